@@ -224,7 +224,18 @@ func TestVerifC13(t *testing.T) {
 				script = append(script, c13Resp{kind: "ok", raDesc: "-"})
 			}
 			tr := &c13Transport{script: script}
-			jc, err := New("http://log.example/ct", &http.Client{Transport: tr}, Options{Logger: c13Quiet{}})
+			hc := &http.Client{Transport: tr}
+			if rr.Intn(3) == 0 {
+				// a caller that brings its own redirect policy (an ordinary hop limit): the contract does not depend on it
+				hc.CheckRedirect = func(req *http.Request, via []*http.Request) error {
+					if len(via) >= 5 {
+						return errors.New("verif: too many redirects")
+					}
+					return nil
+				}
+				out.Count("class:caller-redirect-policy")
+			}
+			jc, err := New("http://log.example/ct", hc, Options{Logger: c13Quiet{}})
 			if err != nil {
 				t.Fatal(err)
 			}
@@ -440,5 +451,107 @@ func TestVerifC13(t *testing.T) {
 			}
 			out.Count("class:concurrent-scenario")
 		})
+	}
+}
+
+
+// ---- two submissions sharing one client: what one of them is answered must not shorten the other's wait
+
+type c13PairTransport struct {
+	t0     time.Time
+	aTimes []time.Duration
+	ra     int
+}
+
+func (p *c13PairTransport) RoundTrip(req *http.Request) (*http.Response, error) {
+	if req.Body != nil {
+		io.Copy(io.Discard, req.Body)
+		req.Body.Close()
+	}
+	mk := func(code int, body string, ra int) *http.Response {
+		h := http.Header{"Content-Type": {"application/json"}}
+		if ra >= 0 {
+			h.Set("Retry-After", fmt.Sprint(ra))
+		}
+		return &http.Response{StatusCode: code, Status: fmt.Sprintf("%d %s", code, http.StatusText(code)), Proto: "HTTP/1.1", ProtoMajor: 1, ProtoMinor: 1,
+			Header: h, Body: io.NopCloser(strings.NewReader(body)), ContentLength: -1, Request: req}
+	}
+	if strings.HasSuffix(req.URL.Path, "/b") {
+		return mk(200, `{"v":2}`, -1), nil
+	}
+	p.aTimes = append(p.aTimes, time.Since(p.t0))
+	if len(p.aTimes) == 1 {
+		return mk([]int{429, 503}[p.ra%2], "busy", p.ra), nil
+	}
+	return mk(200, `{"v":1}`, -1), nil
+}
+
+// c13HookLogger runs hook once, the first time the client logs that it is backing off (that is: after the pause has been
+// recorded and before the wait begins).
+type c13HookLogger struct {
+	hook func()
+	done bool
+}
+
+func (l *c13HookLogger) Printf(format string, _ ...interface{}) {
+	if !l.done && strings.Contains(format, "backing-off") {
+		l.done = true
+		l.hook()
+	}
+}
+
+func TestVerifC13Pair(t *testing.T) {
+	out := verifkit.Open()
+	defer out.Close()
+	for _, ra := range []int{1, 2, 5, 30, 120, 600} {
+		for _, when := range []string{"between-set-and-wait", "during-wait", "never"} {
+			tr := &c13PairTransport{ra: ra}
+			var aErr, bErr error
+			pn := ""
+			synctest.Run(func() {
+				tr.t0 = time.Now()
+				lg := &c13HookLogger{}
+				jc, err := New("http://log.example/ct", &http.Client{Transport: tr}, Options{Logger: lg})
+				if err != nil {
+					pn = err.Error()
+					return
+				}
+				second := func() {
+					var rb struct{ V int }
+					_, _, bErr = jc.PostAndParseWithRetry(context.Background(), "/b", map[string]int{"b": 1}, &rb)
+				}
+				switch when {
+				case "between-set-and-wait":
+					lg.hook = second
+				case "during-wait":
+					lg.hook = func() { go func() { time.Sleep(time.Duration(ra) * time.Second / 2); second() }() }
+				default:
+					lg.hook = func() {}
+				}
+				pn = verifkit.Guard(func() {
+					var ra1 struct{ V int }
+					_, _, aErr = jc.PostAndParseWithRetry(context.Background(), "/a", map[string]int{"a": 1}, &ra1)
+				})
+				synctest.Wait()
+			})
+			key := fmt.Sprintf("pair retry-after=%ds other-submission-succeeds=%s", ra, when)
+			out.Count("class:pair-" + when)
+			switch {
+			case pn != "":
+				out.Fail(key, "panic / set-up: "+pn)
+			case aErr != nil || bErr != nil:
+				out.Fail(key, fmt.Sprintf("a submission failed: a=%v b=%v", aErr, bErr))
+			case len(tr.aTimes) != 2:
+				out.Fail(key, fmt.Sprintf("%d requests for the first submission, expected 2", len(tr.aTimes)))
+			default:
+				gap := tr.aTimes[1] - tr.aTimes[0]
+				if gap < time.Duration(ra)*time.Second {
+					out.Fail(key, fmt.Sprintf("the retry came %s after a reply with Retry-After %d: another submission's success on the same client cut the wait short", gap, ra))
+				}
+				if gap > time.Duration(ra)*time.Second+250*time.Millisecond+time.Millisecond {
+					out.Fail(key, fmt.Sprintf("the retry came %s after a reply with Retry-After %d, later than Retry-After + jitter", gap, ra))
+				}
+			}
+		}
 	}
 }
